@@ -58,3 +58,17 @@ func VerifEncodeT(t *T) string {
 	return fmt.Sprintf("(%d %s %s %s %s %s [%s] %s [%s] [%s] [%s])", t.tType, verifEncStr(t.objectClass), v, verifEncStr(t.key),
 		verifEncStr(t.frame), verifEncStr(t.method), strings.Join(args, " "), flags, list(t.variants), list(t.blockParamaters), list(t.Overloads))
 }
+
+// VerifBuiltinSnapshot renders every TFrame entry whose key lies in the Builtin frame (configured
+// method types, their declared argument types, constants), keyed by the printed key.
+func VerifBuiltinSnapshot() map[string]string {
+	out := map[string]string{}
+	for k, v := range TFrame {
+		if k.frame != "Builtin" && !strings.HasPrefix(k.frame, "Builtin::") {
+			continue
+		}
+		key := fmt.Sprintf("%s|%s|%s|%s|%v|%v", k.frame, k.targetClass, k.targetMethod, k.targetVariable, k.isPrivate, k.isStatic)
+		out[key] = VerifEncodeT(v)
+	}
+	return out
+}
